@@ -103,6 +103,9 @@ func FindNaluTypes(sample []byte) []NaluType {
 		pos += 4
 		naluType := GetNaluType(sample[pos])
 		naluList = append(naluList, naluType)
+		if uint64(pos)+uint64(naluLength) > uint64(length) {
+			break // bad length field, no more NALUs
+		}
 		pos += naluLength
 	}
 	return naluList
@@ -121,6 +124,9 @@ func FindNaluTypesUpToFirstVideoNalu(sample []byte) []NaluType {
 		pos += 4
 		naluType := GetNaluType(sample[pos])
 		naluList = append(naluList, naluType)
+		if uint64(pos)+uint64(naluLength) > uint64(length) {
+			break // bad length field, no more NALUs
+		}
 		pos += naluLength
 		if IsVideoNaluType(naluType) {
 			break // Video has started
@@ -147,6 +153,9 @@ func ContainsNaluType(sample []byte, specificNaluType NaluType) bool {
 		naluType := GetNaluType(sample[pos])
 		if naluType == specificNaluType {
 			return true
+		}
+		if uint64(pos)+uint64(naluLength) > uint64(length) {
+			return false // bad length field, no more NALUs
 		}
 		pos += naluLength
 	}
